@@ -379,6 +379,9 @@ fn compare_observers<P: Payload + Clone>(st: &mut Stats, ctx: &Ctx, b: &Bundle, 
                 }
             };
         }
+        if st.samples.len() < 2 && ctx.bundle_idx % 997 == 3 && got.desc.len() >= 2 {
+            st.samples.push(json!({"path": b.path, "observers_of_slot": slot, "observed": got, "pull_word_example": if ctx.opts.pulls { json!({"word": "FBB", "children_yield": sim.pulls("kids", slot, "FBB")}) } else { json!(null) }}));
+        }
         cmpe!(next_s, "next_traverse(Start)");
         cmpe!(next_e, "next_traverse(End)");
         cmpe!(prev_s, "prev_traverse(Start)");
@@ -401,6 +404,13 @@ fn compare_observers<P: Payload + Clone>(st: &mut Stats, ctx: &Ctx, b: &Bundle, 
                         st.check("C10", 1);
                         let got = sim.pulls(which, slot, w);
                         let want: Vec<i64> = positions.iter().map(|p| if *p == 0 { 0 } else { fwd[*p - 1] }).collect();
+                        // C02: whatever the order, no node may be yielded twice
+                        st.check("C02", 1);
+                        let mut nz: Vec<i64> = got.iter().copied().filter(|x| *x != 0).collect();
+                        nz.sort();
+                        if nz.windows(2).any(|w| w[0] == w[1]) {
+                            st.violation(keep, Finding { prop: "C02".into(), kind: format!("yielded-twice:{}", which), detail: format!("{} from slot {} under pull word {} yields {:?}: a node is yielded more than once", which, slot, w, got), case: case_json(b, prefix, None, json!({"word": w, "want": want}), json!(got)) });
+                        }
                         if got != want {
                             st.violation(keep, Finding { prop: "C10".into(), kind: format!("pulls:{}", which), detail: format!("{} from slot {} under pull word {} yields {:?} expected {:?} (forward sequence {:?})", which, slot, w, got, want, fwd), case: case_json(b, prefix, None, json!({"word": w, "want": want}), json!(got)) });
                         }
@@ -486,7 +496,10 @@ fn run_bundle<P: Payload + Clone>(ctx: &Ctx, b: &Bundle, prefix: &Option<Vec<Cal
     }
     let base = sim.proj();
     st.max_slots_seen = st.max_slots_seen.max(base.count);
-    let base_ok = base.count == b.st.count && live_set(&base) == sorted(b.st.live.clone()) && base.links == b.st.links && base.val == b.st.val;
+    // links of REMOVED slots are not part of the forest: a removed slot that still reports relatives is
+    // reported (C12) at the call that left them, and must not hide what happens later on the path
+    let live_links_ok = (0..base.count.min(b.st.count)).all(|s| !base.live[s] || base.links[s] == b.st.links[s]);
+    let base_ok = base.count == b.st.count && live_set(&base) == sorted(b.st.live.clone()) && live_links_ok && base.val == b.st.val;
     if !base_ok {
         // the state reached differs from the specification's although every single step from
         // shallower states is checked elsewhere; report against the last operation of the path
@@ -764,10 +777,19 @@ pub fn run(input: &str, out: &str, states_out: &str, detable_path: &str, opts: O
                         prog.bundle_idx.store(idx, Ordering::Relaxed);
                         prog.busy.store(true, Ordering::SeqCst);
                         let ctx = Ctx { opts: &opts, detable: &detable, bundle_idx: idx };
-                        if opts.tracked {
-                            crate::tracked::process(&ctx, &line, &prog, &mut st);
-                        } else {
-                            process::<u32>(&ctx, &line, &prev, &prog, &mut st);
+                        // the harness' own reads can only panic on a corrupted arena: that is a finding
+                        let r = std::panic::catch_unwind(std::panic::AssertUnwindSafe(|| {
+                            if opts.tracked {
+                                crate::tracked::process(&ctx, &line, &prog, &mut st);
+                            } else {
+                                process::<u32>(&ctx, &line, &prev, &prog, &mut st);
+                            }
+                        }));
+                        if let Err(p) = r {
+                            let msg = if let Some(s) = p.downcast_ref::<&str>() { s.to_string() } else if let Some(s) = p.downcast_ref::<String>() { s.clone() } else { "?".into() };
+                            let path: serde_json::Value = serde_json::from_str::<serde_json::Value>(&line).map(|v| v["path"].clone()).unwrap_or(json!(null));
+                            let prop = if msg.contains("freed node") { "C08" } else { "C05" };
+                            st.violation(opts.keep, Finding { prop: prop.into(), kind: "state-unreadable".into(), detail: format!("reading the arena back through its public accessors panicked: {}", msg), case: json!({"path": path, "call": null, "expected": "readable state", "observed": msg}) });
                         }
                         prog.busy.store(false, Ordering::SeqCst);
                         prog.tick.fetch_add(1, Ordering::Relaxed);
